@@ -10,7 +10,8 @@
 (*    a    the TAPE side: instructions with Gates.tla records,             *)
 (*    b    the PROGRAM side: instructions with OpenQASM gate statements    *)
 (*         (Qelib1.tla),                                                   *)
-(*    rel  "phase": U_b = e^{ic} U_a      "diag": U_b U_a^+ is diagonal    *)
+(*    rel  "phase": U_b = e^{ic} U_a (per measurement record, see below)    *)
+(*         "diag": U_b U_a^+ is diagonal                                   *)
 (*         (the program ends in the eigenbasis the tape's reference        *)
 (*         diagonalising gates end in),                                    *)
 (*    nq, enq      qreg size found in the program / expected,              *)
@@ -29,8 +30,11 @@
 (* conditioned gate is the gate controlled on the ancillas (one controlled *)
 (* gate per accepted value tuple), "r" copies the wire onto the ancilla    *)
 (* and flips the wire back.  Both sides are dilated by the same rule and   *)
-(* compared on the inputs whose ancillas are |0>, so equality of the       *)
-(* dilations implies equality of the measurement instruments.              *)
+(* evaluated on the inputs whose ancillas are |0>.  The rows of a dilation *)
+(* with ancilla value o form the Kraus operator K_o of the measurement     *)
+(* record o; two programs are the same instrument iff K_o^b = e^{i c_o}    *)
+(* K_o^a for every record o (the phase may depend on the record: branches  *)
+(* of different records never interfere).                                  *)
 (* One verdict <<"V", tid, clause>> per case (verdicts are total).         *)
 (***************************************************************************)
 EXTENDS Qelib1, Json, IOUtils, FiniteSets
@@ -72,6 +76,9 @@ MeasuredOK(c) ==
    /\ Cardinality({c.mp[i][2] : i \in 1..Len(c.mp)}) = Len(c.mp)
    /\ \A i \in 1..Len(c.mp) : c.mp[i][2] >= 0 /\ c.mp[i][2] < c.ncreg /\ c.mp[i][1] >= 0 /\ c.mp[i][1] < c.nq
 PrecOK(c) == \A i \in 1..Len(c.b) : \A j \in 1..Len(c.b[i].pe) : c.b[i].pe[j] <= c.b[i].tol[j]
+\* Kraus operator of the measurement record o (0 <= o < 2^k): the rows whose ancilla bits spell o
+TqBlock(u, o, c) == [k |-> u.k, e |-> TLCEval([r \in 1..2^c.n |-> u.e[(r - 1) * 2^c.k + o + 1]])]
+TqSameInstrument(ua, ub, c) == \A o \in 0..(2^c.k - 1) : EqUpToScalar(TqBlock(ua, o, c), TqBlock(ub, o, c))
 \* overflow guard (Cyclo.MaxAbs doubles its work per coefficient: unusable at H = 16)
 TqInBound(m) == \A i \in 1..Len(m.e) : \A j \in 1..Len(m.e[i]) : \A t \in IdxH : m.e[i][j][t] < Bound /\ m.e[i][j][t] > -Bound
 TqIsDiag(m) == \A i \in 1..Len(m.e) : \A j \in 1..Len(m.e[i]) : i # j => IsZero(m.e[i][j])
@@ -80,7 +87,7 @@ TqVerdict(ua, ub, c) ==
    ELSE IF ~MeasuredOK(c) THEN "measured-register"
    ELSE IF ~PrecOK(c) THEN "angle-precision"
    ELSE IF ~TqInBound(ua) \/ ~TqInBound(ub) THEN "overflow"
-   ELSE CASE c.rel = "phase" -> IF EqUpToScalar(ua, ub) THEN "ok" ELSE "not-equal-up-to-phase"
+   ELSE CASE c.rel = "phase" -> IF TqSameInstrument(ua, ub, c) THEN "ok" ELSE "not-equal-up-to-phase"
           [] c.rel = "diag"  -> IF TqIsDiag(MatMul(ub, Dagger(ua))) THEN "ok" ELSE "not-diagonal-in-eigenbasis"
 EndB == /\ side = 1 /\ pos > Len(Case.b)
         /\ PrintT(<<"V", tid, TqVerdict(Ua, U, Case)>>)
